@@ -10,6 +10,7 @@ import Driver.C18
 import Driver.C16
 import Driver.C16X
 import Driver.Groups
+import Driver.C11V
 import IGVerif.Gen.Facts
 open Drv Lean
 
@@ -37,7 +38,7 @@ def genFor (prop tier : String) (seed : Nat) : Except String (Array Case) :=
   | "C18" => pure (genC18Cases tier seed)
   | "C20" => pure (genC20Cases tier seed)
   | "C10" => pure (genC10Cases tier seed)
-  | "C11" => pure (genC11Cases tier seed)
+  | "C11" => pure (genC11Cases tier seed ++ genValidateCases tier seed)
   | "C12" => pure (genC12Cases tier seed)
   | "C13" => pure (genC13Cases tier seed)
   | "C14" => pure (genC14Cases (!IGVerif.Gen.converterLockCalls.isEmpty) tier seed)
@@ -61,7 +62,7 @@ def judgeFor (prop : String) : Except String (Case → ObsLine → Verdict) :=
   | "C18" => pure judgeParse
   | "C20" => pure (judgeVis true)
   | "C10" => pure judgeC10
-  | "C11" => pure judgeC11
+  | "C11" => pure (fun c o => if c.op = "validate" then judgeValidate c o else judgeC11 c o)
   | "C12" => pure judgeC12
   | "C13" => pure judgeC13
   | "C14" => pure judgeC14
